@@ -28,6 +28,29 @@ MUTATIONS = [
      "                        _partial_len = b''\n", ''),
     ('c14-buffer-not-cleared', 'C14', 'abacusnbody/data/asdf.py',
      '                        _buffer = None\n                        _size = 0', '                        _size = 0'),
+    # ---- C07
+    ('c07-allow-half-grid', 'C07', 'abacusnbody/analysis/tsc.py',
+     'if npartition > 1 and npartition > n1d // 3 and nthread > 1:',
+     'if npartition > 1 and npartition > n1d // 3 and npartition != n1d // 2 and nthread > 1:'),
+    ('c07-default-too-fine', 'C07', 'abacusnbody/analysis/tsc.py',
+     'npartition = min(n1d // 3, 2 * nthread)', 'npartition = min(n1d // 2, 2 * nthread)'),
+    ('c07-odd-pass-count', 'C07', 'abacusnbody/analysis/tsc.py',
+     'for i in numba.prange(npartition // 2):', 'for i in numba.prange((npartition + 1) // 2):'),
+    ('c07-odd-pass-wrong-slice', 'C07', 'abacusnbody/analysis/tsc.py',
+     'ppart[starts[2 * i + 1] : starts[2 * i + 2]],', 'ppart[starts[2 * i] : starts[2 * i + 2]],'),
+    # ---- C17
+    ('c17-shared-histogram', 'C17', 'abacusnbody/analysis/tsc.py',
+     'counts[t, keys[i]] += 1', 'counts[0, keys[i]] += 1'),
+    ('c17-weights-misaligned', 'C17', 'abacusnbody/analysis/tsc.py',
+     'wsort[s] = weights[i]', 'wsort[i] = weights[i]'),
+    ('c17-no-clamp', 'C17', 'abacusnbody/analysis/tsc.py',
+     'keys[i] = min(np.int32(pos[i, coord] * inv_pwidth), npartition - 1)',
+     'keys[i] = np.int32(pos[i, coord] * inv_pwidth)'),
+    ('c17-sort-drops-weights', 'C17', 'abacusnbody/analysis/tsc.py',
+     '                weightspart[:] = weightspart[iord]\n', ''),
+    ('c17-tstart-rounding', 'C17', 'abacusnbody/analysis/tsc.py',
+     'tstart = np.linspace(0, len(pos), nthread + 1).astype(np.int64)',
+     'tstart = (np.arange(nthread + 1) * (len(pos) // nthread)).astype(np.int64)'),
 ]
 
 
